@@ -23,6 +23,7 @@ QCov   == Quiet(C0!UCov)
 QKinds == Quiet(C0!UKinds)
 QNet   == Quiet(C0!UNet)
 QZone  == Quiet(C0!UZone)
+QMisc  == Quiet(C0!UMisc)
 
 Orig == INSTANCE Clients WITH U <- MCU, W <- 4, SampleMod <- 1, SampleSeed <- 0
 
